@@ -79,6 +79,20 @@ def parse (hex : String) : String :=
         s!"ok proto={r.hs.proto} host={hexOut (utf8 r.hs.host)} port={r.hs.port} " ++
           s!"next={r.hs.next} rest={showPkts r.frames}"
 
+def showStatusPkt : StatusPkt → String
+  | .response j => "response:" ++ hexOut (utf8 j)
+  | .pong t => s!"pong:{t}"
+  | .other => "other"
+
+/-- every token is one arrival segment (`-` = an empty arrival) -/
+def recvStatus (segToks : List String) : String :=
+  match segToks.mapM bytesOfHex with
+  | none => "bad-op"
+  | some segs =>
+    let r := clientRecvStatus segs
+    let pk := if r.1.isEmpty then "-" else ",".intercalate (r.1.map showStatusPkt)
+    s!"ok pkts={pk} end={r.2}"
+
 end HsWireD
 
 /-- Line protocol of `Model/HandshakeWire.lean`.
@@ -100,7 +114,15 @@ before the exception is not shown.
 | `err:<Err>`: the reference server (`serverRecv`) on these bytes arriving as one segment: the
 handshake record and the frames that followed it as `<decimal id>.<hex of the field bytes|->`;
 `err:<Err>` when the first frame cannot be read or decoded (`err:other`: its id is not 0, or bytes
-are left behind `next_state`) or the stream does not end at a frame boundary (`err:eof` …). -/
+are left behind `next_state`) or the stream does not end at a frame boundary (`err:eof` …).
+
+`hswire.recvstatus [<segment hex|-> …]` → `ok pkts=<response:<utf8hex|->|pong:<int>|other,…|-> end=<Err>`:
+the client's networking thread (`clientRecvStatus`) on the server → client stream of a status
+connection arriving in these segments (no token at all = nothing ever arrives): the packets handed
+to `StatusReactor.react`, in order, and the exception that ended the loop — ALWAYS one; `end=eof`
+when the stream is exhausted (no bytes, or a clean end between frames) as well as on a cut inside
+a frame.  Example: `hswire.recvstatus 0400027b7d 0901 00000000000003e8` →
+`ok pkts=response:7b7d,pong:1000 end=eof`; `hswire.recvstatus` → `ok pkts=- end=eof`. -/
 def hswire (toks : List String) : Option String :=
   match toks with
   | "hswire.first" :: proto :: host :: port :: next :: rest =>
@@ -108,6 +130,7 @@ def hswire (toks : List String) : Option String :=
   | "hswire.first" :: _ => some "bad-op"
   | ["hswire.parse", hex] => some (HsWireD.parse hex)
   | "hswire.parse" :: _ => some "bad-op"
+  | "hswire.recvstatus" :: segs => some (HsWireD.recvStatus segs)
   | _ => none
 
 end PyCraft.Drive
